@@ -24,7 +24,7 @@ ASSUMPTIONS = ["float64; central differences with h = 1e-5 and h/2; accept relat
 REQUIRED_COUNTS = ["fd_comparisons", "backward_calls", "per_tensor_checks", "f32_gradient_comparisons"]
 BUDGET = {"case_timeout": {"quick": 400, "thorough": 3000}}
 H = 1e-5
-RTOL = 1e-5
+RTOL = 3e-5      # observed <= 4e-9 typically; the tail over 1.5e5 comparisons (thorough) reaches 1.1e-5
 
 
 def gen_cases(tier, seed):
@@ -52,6 +52,17 @@ def gen_cases(tier, seed):
             cfg["parts"] = [_smooth(p) for p in cfg["parts"]]
         cases.append({"kind": "flow", "cfg": cfg, "mode": "eval" if i % 2 else "train", "policy": "randn0.3",
                       "seed": env.subseed(seed, "c16f", i), "world": "f64", "tier_": tier, "cost": 5})
+    # the four spline functions element-wise in float32 next to float64 (2e4 points per case, many next to bin ends):
+    # every element must receive an input gradient, equal to the float64 one where the float32 value itself agrees
+    k = 0
+    for fam in ("linear", "quadratic", "cubic", "rq"):
+        for inverse in (False, True):
+            for flat in (False, True):
+                for rep in range(1 if tier == "quick" else 6):
+                    cases.append({"kind": "spline_grad", "family": fam, "inverse": inverse, "flat_ends": flat, "mode": "eval",
+                                  "n": 20000 if tier == "quick" else 100000, "seed": env.subseed(seed, "c16sg", k), "world": "f32",
+                                  "tier_": tier, "cost": 2})
+                    k += 1
     # library distributions: log_prob must be differentiable w.r.t. parameters, inputs and context
     for i in range(20 if tier == "quick" else 1500):
         dc = dzoo.sample_dist_cfg(rng, [["cond_diag", "mademog", "mademog", "diag", "bernoulli"][i % 5]])
@@ -80,7 +91,62 @@ def _smooth(cfg, keep_cache=False):
     return cfg
 
 
+def run_spline_grad(case):
+    from vf import splineref
+    r = R(case)
+    fam, inv, n = case["family"], case["inverse"], case["n"]
+    g = torch.Generator().manual_seed(case["seed"])
+    K = 6
+    params = splineref.random_params(fam, n, K, 1.5, g, tails=False)
+    if case["flat_ends"]:
+        for k in params:
+            if "deriv" in k:
+                params[k] = params[k] - 3.0
+    fn = splineref.fn(fam, False)
+    z = torch.rand(n, generator=g)
+    z[: n // 3] = torch.rand(n // 3, generator=g) * 1e-3
+    z[n // 3: 2 * n // 3] = 1 - torch.rand(n // 3 + (n % 3 > 0), generator=g)[: 2 * n // 3 - n // 3] * 1e-3
+
+    def run(dt):
+        zz = z.to(dt).clone().requires_grad_(True)
+        pp = {k: v.to(dt) for k, v in params.items()}
+        if inv:
+            with torch.no_grad():
+                src = fn(inputs=z.to(dt), inverse=False, **pp)[0].clamp(0, 1)
+            zz = src.clone().requires_grad_(True)
+        out, lad = fn(inputs=zz, inverse=inv, **pp)
+        out.sum().backward()
+        return out.detach(), zz.grad.detach(), zz.detach()
+    try:
+        o32, g32, in32 = run(torch.float32)
+        o64, g64, in64 = run(torch.float64)
+    except Exception as e:
+        r.inconc("spline gradient driver failed: %r" % (e,))
+        return r.done()
+    r.ev(n)
+    r.count("spline_gradient_points", n)
+    det = dict(family=fam, inverse=inv, flat_ends=case["flat_ends"])
+    interior = (in32 > 0) & (in32 < 1)            # clamp at the box ends has no derivative in this torch
+    dead = interior & (g32 == 0) & torch.isfinite(g64) & (g64 > 0)
+    if dead.any():
+        k = int(dead.nonzero()[0])
+        r.viol("missing_gradient", "spline %s %s: elements receive no input gradient in float32" % (fam, "inverse" if inv else "forward"),
+               n_elements=int(dead.sum()), of=n, input=float(in32[k]), float64_gradient=float(g64[k]), **det)
+    same = interior & ((o32.double() - o64).abs() <= 1e-4) & ((in32.double() - in64).abs() <= 1e-6) & torch.isfinite(g64) & (g64 > 0) & (g64 < 1e3)
+    off = same & ((g32.double() - g64).abs() > 0.2 * g64 + 1e-3)
+    r.worst("spline_f32_grad_off_fraction", float(off.float().mean()))
+    if fam != "linear" and off.float().mean() > 1e-3:
+        r.viol("f32_gradient", "spline %s %s: float32 input gradients disagree with float64 where the values agree" % (fam, "inverse" if inv else "forward"),
+               fraction=float(off.float().mean()), **det)
+    if bool((g32 != 0).any()):
+        r.cell("spline_grad", fam, inv, case["flat_ends"])
+    r.sample({"spline_grad": det, "points": n})
+    return r.done()
+
+
 def run_case(case):
+    if case["kind"] == "spline_grad":
+        return run_spline_grad(case)
     r = R(case)
     kind, cfg, seed, mode = case["kind"], case["cfg"], case["seed"], case["mode"]
     g = torch.Generator().manual_seed(seed)
@@ -209,6 +275,7 @@ def check_direction(r, model, kind, label, direction, x, ctx, params, g, case, c
             return "bad"
         r.ev()
         r.count("backward_calls")
+        L64val = float(L.detach())
         grads = {n: (p.grad.detach().clone() if p.grad is not None else None) for n, p in params}
         gx = xr.grad.detach().clone() if xr.grad is not None else None
         gc = cr.grad.detach().clone() if cr is not None and cr.grad is not None else None
@@ -246,7 +313,10 @@ def check_direction(r, model, kind, label, direction, x, ctx, params, g, case, c
         scale = max(abs(d2), abs(analytic), 1e-6)
         if not (np.isfinite(d1) and np.isfinite(d2)):
             return "kink"
-        if abs(d1 - d2) > 1e-3 * scale + 1e-9:
+        # (1e-4: near a singularity of the map - atanh / logit next to the end of their domain, slopes of 3e3 - the h^2 term
+        #  of the central difference is 1e-3 of the slope and Richardson extrapolation leaves 1e-4; the two step sizes must
+        #  agree ten times better than that before their extrapolation is trusted to 1e-5)
+        if abs(d1 - d2) > 1e-4 * scale + 1e-9:
             return "kink"
         # a slope jump closer than h/2 to the point is straddled by both central differences (they agree with each other
         # and with neither one-sided derivative): the forward/backward one-sided differences then disagree by the jump at
@@ -283,6 +353,18 @@ def check_direction(r, model, kind, label, direction, x, ctx, params, g, case, c
             c32 = ctx.float().requires_grad_(True) if ctx is not None else None
             L32 = functional(m32, kind, direction, x32, c32, w.float(), v.float())
             L32.backward()
+            with torch.no_grad():
+                f64_ = model.forward if direction == "forward" else model.inverse
+                f32_ = m32.forward if direction == "forward" else m32.inverse
+                o64_, l64_ = f64_(x, ctx)
+                o32_, l32_ = f32_(x.float(), ctx.float() if ctx is not None else None)
+                ill = bool(((o32_.double() - o64_).abs() > 1e-3 * (1 + o64_.abs())).any()) or \
+                    bool(((l32_.double() - l64_).abs() > 1e-2 * (1 + l64_.abs())).any())
+            if ill or not abs(float(L32.detach()) - L64val) <= 1e-3 * (1 + abs(L64val)):
+                # the float32 VALUE already differs (ill-conditioned item: an inverse slope of 1.7e4 moved x by 0.009):
+                # its gradient says nothing about a cut path
+                r.count("f32_twin_illconditioned")
+                raise StopIteration
             r.ev()
             r.count("f32_gradient_comparisons")
             pairs = [("inputs", x32.grad, gx)]
@@ -305,6 +387,8 @@ def check_direction(r, model, kind, label, direction, x, ctx, params, g, case, c
                 if err > 0.2 * nb + 1e-3 and 1e-2 < nb < 1e6:
                     r.viol("f32_gradient", "%s float32 gradient disagrees with the float64 gradient" % label, what=what,
                            rel_err=err / max(nb, 1e-30), **det)
+        except StopIteration:
+            pass
         except Exception as e:
             r.count("f32_twin_raised")
     if case.get("inputs_only"):
